@@ -90,7 +90,7 @@ async fn stream_flow(a: &snel_harness::out::Args, root: &std::path::Path) {
             if split {
                 s.tally("flow-takes-both-sink-paths");
             }
-            s.case(&format!("flow {}{}", case.plan.header(), body_tokens(flows)), &line, nontrivial);
+            s.case(&format!("flow {}{}{}", case.plan.header(), body_tokens(flows), case.plan.note()), &line, nontrivial);
             if pi == 0 {
                 tally_case(&mut s, &case, flows);
             }
@@ -113,7 +113,7 @@ async fn stream_witness(a: &snel_harness::out::Args, root: &std::path::Path) {
             Ok(t) => table_line(t),
             Err(_) => "err".to_string(),
         };
-        s.case(&format!("flow {}{}", w.plan.header(), body_tokens(&w.flows)), &line, true);
+        s.case(&format!("flow {}{}{}", w.plan.header(), body_tokens(&w.flows), w.plan.note()), &line, true);
         let case = witness::as_case(w);
         let got = match &res {
             Ok(t) => oracle::classify(&case, &w.flows, t),
@@ -143,6 +143,46 @@ fn tally_case(s: &mut Stream, case: &Case, flows: &Flows) {
         _ => "groupby:2",
     });
     s.tally(&format!("bucket:{}", case.plan.bucket.map(|g| g.word()).unwrap_or("none")));
+    if let Some(l) = case.plan.limit {
+        s.tally("LIMIT");
+        let cap = l as usize + case.plan.offset.unwrap_or(0) as usize;
+        let int_like_groups = case.plan.group_by.as_ref().is_some_and(|g| {
+            g.iter().any(|f| case.rows.iter().any(|r| matches!(r.get(*f), Some(Sc::Int(_)))))
+        });
+        // the situation a per-flow pruning of groups would be wrong in: several flows, one of them
+        // with more groups than OFFSET + LIMIT, group values whose string and numeric order differ
+        let flow_groups = |fl: &Vec<Vec<Vec<Sc>>>| {
+            let mut ks: Vec<String> = fl
+                .iter()
+                .flatten()
+                .map(|r| {
+                    let mut k = String::new();
+                    if let Some(g) = &case.plan.group_by {
+                        for f in g {
+                            k.push_str(&r.get(*f).map(|c| c.token()).unwrap_or_default());
+                            k.push('|');
+                        }
+                    }
+                    if case.plan.bucket.is_some() {
+                        k.push_str(&r.get(case.plan.tf).map(|c| c.token()).unwrap_or_default());
+                    }
+                    k
+                })
+                .collect();
+            ks.sort();
+            ks.dedup();
+            ks.len()
+        };
+        if flows.len() > 1 && flows.iter().any(|fl| flow_groups(fl) > cap) {
+            s.tally("LIMIT:some-flow-holds-more-groups-than-cap");
+            if int_like_groups {
+                s.tally("LIMIT:…and-BY-on-integers");
+            }
+        }
+    }
+    if case.plan.offset.is_some() {
+        s.tally("OFFSET");
+    }
     s.tally_n("rows", case.rows.len() as u64);
     s.tally(&format!("flows:{}", flows.len()));
     s.tally_n("batches", flows.iter().map(|f| f.len() as u64).sum());
